@@ -6,12 +6,14 @@ PROPS = "theories/Props/C10.v"
 
 def gen_cases(run):
     rng = run.rng; cases = []
-    dist = {"graphs": 0, "queries": 0, "start_eq_stop": 0, "absent_end": 0, "weighted_edges": 0}
+    dist = {"graphs": 0, "queries": 0, "start_eq_stop": 0, "absent_end": 0, "weighted_edges": 0, "zero_weight_edges": 0, "graphs_with_cheap_detour": 0, "detour_queries": 0}
     n = 5000 if run.thorough else 700
     for _ in range(n):
         g = Gen(rng)
-        tree = g.tree(1, 2, singles_only=True, weighted=True)
+        tree = g.tree(1, 2, singles_only=True, weighted=True, nmax=rng.choice([3, 6, 8, 9]))
         nn = tree[2]
+        dist["weighted_edges"] += sum(1 for e in g.last_graph[1] if e[2] > 0); dist["zero_weight_edges"] += sum(1 for e in g.last_graph[1] if e[2] == 0)
+        if g.detour: dist["graphs_with_cheap_detour"] += 1
         # add a few back/extra edges: shortest-path reasoning does not need acyclicity
         calls = []
         for _ in range(rng.randrange(1, 6)):
@@ -20,6 +22,9 @@ def gen_cases(run):
             if rng.random() < 0.3:
                 perm = list(range(14)); rng.shuffle(perm); idx = [(i, perm[i]) for i in range(14)]
             a = rng.randrange(0, nn + 1); b = rng.randrange(0, nn + 1)
+            if rng.random() < 0.8: a = rng.randrange(0, nn); b = rng.randrange(0, nn)       # mostly present ends
+            if a == b and nn > 1 and rng.random() < 0.7: b = (a + rng.randrange(1, nn)) % nn
+            if g.detour and rng.random() < 0.5: a, b = g.detour; dist["detour_queries"] += 1
             if a == b: dist["start_eq_stop"] += 1
             if a >= nn or b >= nn: dist["absent_end"] += 1
             calls.append(call(3, a, b, idx, data)); dist["queries"] += 1
@@ -29,7 +34,7 @@ def gen_cases(run):
 
 
 CHECKS = [chk_trace]
-RULE = ("weighted DAGs (weights 0..5 forcing ties and cheaper detours) of singleton causaloids; all kinds of ordered pairs incl. start == stop, absent and unreachable ends; random verdicts "
+RULE = ("weighted DAGs of 1..9 nodes (weights 0..5 forcing ties; 60% of the graphs with >= 4 nodes get a cheap 3-5 hop chain next to a heavier direct edge, half of their queries ask for exactly that pair) of singleton causaloids; all kinds of ordered pairs incl. start == stop, absent and unreachable ends; random verdicts "
         "with error markers; id or index routing. Oracle (extracted c10_check_entry): the path the graph's shortest_path routine returned is validated by C15's proved checker, the call is "
         "recomputed on the model WITH THAT PATH and the whole segment (verdict, evaluated causaloids in order with their observations, activation of every causaloid) must be equal")
 
